@@ -15,6 +15,8 @@ def cs(v):
 
 def secret_scalars(rng, k):
     out = [0, L - 1, int('7' * 63, 16) % L, int('8' * 63, 16) % L, 1, (1 << 252) - 1]
+    # every nibble value repeated (each signed radix-16 digit value occurs), then random
+    out += [int(('%x' % d) * 63, 16) % L for d in (15, 9, 1, 2, 3, 4, 5, 6, 10, 11, 12, 13, 14)]
     while len(out) < k:
         out.append(rng.randrange(L))
     return out[:k]
@@ -283,7 +285,7 @@ def run(prop, tier, seed, t0):
         else:
             variants = [(label, bd[label], None)]
         ops = STEP_OPS[:8] if q else STEP_OPS
-        npairs = 4 if q else 6
+        npairs = 4 if q else (16 if c.startswith('avx512') else 6)
         for v in variants:
             for name in ops:
                 tasks.append(('vlib.props.c10', 'task_stepper', prop, seed, npairs, [v], {'ops': (name,)}))
